@@ -38,7 +38,8 @@ ID = 'C02'
 RULE = ('product bounds-set x coefficient-set x (NASA-9: segment count x listing order; Shomate: fitting unit) '
         'x every lattice point / lattice edge / outside point / array shape; a case is non-trivial when '
         'the temperature is on or adjacent to a break point or bound, lies outside the range, is an '
-        'integer, or is an array')
+        'integer, or is an array; call histories: object x how it was made x buffer dtype x first getter x '
+        'event x second getter (every history is a distinct non-trivial case)')
 ASSUMPTIONS = [
     'segment bounds from the four sets of DESIGN C02 (NASA-9: up to two further break points per set, '
     'plus one set with a gap between segments); temperatures from a ratio lattice plus bounds, break '
@@ -49,6 +50,10 @@ ASSUMPTIONS = [
     'a length-1 array may be answered by a bare number (Shomate and Nasa9 do): the statement is about values',
     'Shomate / NASA-7 outside their range: extrapolation with a RuntimeWarning is documented behaviour '
     'and is recorded (branch tags), not judged',
+    'call histories use one realistic coefficient set per bounds/segment/unit configuration (water; CO2 for the second '
+    'species and for re-assigned parameters), three-element buffers that span the first two segments, and one event '
+    'between two getter calls (thorough: also two events between three calls of the same getter)',
+    'a gas species (phase="G") is evaluated at the default pressure, where the attached pressure model contributes nothing',
 ]
 EXPLANATION = ('exhaustive walk of a temperature lattice on real Nasa/Nasa9/Shomate objects; oracles: textbook '
                'polynomial forms, quadrature of the object\'s own Cp along every edge, scalar-by-scalar evaluation')
@@ -139,7 +144,7 @@ PLANNED_TAGS = [
     'array:len1', 'array:len2', 'array:len3', 'array:len7', 'array:len50', 'array:ndarray', 'array:int-dtype',
     'array:asc', 'array:desc', 'array:rep', 'array:shuf', 'array:spans-segments', 'array:len1->bare-number',
     'lin:nasa7', 'lin:nasa9', 'lin:shomate', 'edge:nasa7', 'edge:nasa9', 'edge:shomate',
-    'T:np.int64', 'T:np.float64', 'coef:int-dtype', 'phase:G',
+    'T:np.int64', 'T:np.float64', 'coef:int-dtype', 'phase:G', 'lin:T=int', 'lin:T=np.int64',
     'hist:dtype=float', 'hist:dtype=int', 'hist:res-clobbered', 'hist:break-moved-an-element',
 ] + ['hist:ev=' + e for e in HIST_EVENTS] + ['hist:make=' + m for m in HIST_MAKES]
 
@@ -153,7 +158,15 @@ def bounds(tier):
                 nasa9_segments='1-4, ascending and shuffled listing',
                 lattice_ratio=_ratio(tier), shomate_units=UNITS_Q if tier == 'quick' else UNITS_T,
                 coefficient_sets='basis vectors e_i (7/9/8 per family) + %s' % COEF_NAMES,
-                array_lengths=ARRAY_LENGTHS if tier == 'quick' else ARRAY_LENGTHS_T, array_orders=['asc', 'desc', 'rep'],
+                array_lengths=ARRAY_LENGTHS if tier == 'quick' else ARRAY_LENGTHS_T, array_orders=ARRAY_ORDERS,
+                scalar_types=['float', 'int', 'numpy.float64 (bounds, break points, neighbours)', 'numpy.int64'],
+                extra_objects='integer-typed bounds + integer-dtype coefficients (bounds sets 0, 1, gap); gas species (phase="G")',
+                history=dict(makes=HIST_MAKES, buffer_dtypes=HIST_DTYPES, events=HIST_EVENTS, getters=GETTERS,
+                             depth='getter, event, getter: all 8x8 getter pairs for constructor-made objects with a float '
+                                   'buffer, the 8 diagonal pairs for the other make/dtype combinations' if tier == 'quick'
+                                   else 'getter, event, getter: all 8x8 pairs for every make/dtype; plus getter, event, '
+                                        'getter, event, getter on the diagonal for constructor-made objects',
+                             coefficient_set=HIST_COEF, second_species=HIST_COEF2),
                 array_containers=['ndarray (float dtype)', 'ndarray (int dtype)'], getters=GETTERS,
                 linearity='all pairs of basis vectors, multiples %s' % MULTIPLES,
                 quadrature='16-point Gauss-Legendre, 2 panels per edge')
@@ -720,6 +733,10 @@ def _hist_expect(st, getter, Ts, obs):
     return exp, scale
 
 
+class _HistoryBroken(Exception):
+    """A clause failed in a way that makes the rest of the history meaningless (the buffer was overwritten)."""
+
+
 def _hist_call(ctx, case, o, st, getter, arg, sig, buf=None):
     """One judged getter call.  arg: the buffer itself, a fresh array or a scalar."""
     is_arr = isinstance(arg, np.ndarray)
@@ -729,9 +746,11 @@ def _hist_call(ctx, case, o, st, getter, arg, sig, buf=None):
     ctx.evals()
     ctx.trans()
     if is_arr:
-        ctx.true(CL_INPUT, _same_array(arg, before), sig, case, arg.tolist(), Ts)
         for x in ([arg] if buf is None or buf is arg else [arg, buf]):
-            ctx.true(CL_ALIAS, not (isinstance(res, np.ndarray) and np.shares_memory(res, x)), sig, case)
+            if not ctx.true(CL_ALIAS, not (isinstance(res, np.ndarray) and np.shares_memory(res, x)), sig, case):
+                raise _HistoryBroken()
+        if not ctx.true(CL_INPUT, _same_array(arg, before), sig, case, arg.tolist(), Ts):
+            raise _HistoryBroken()
     if not ctx.true('an array of N temperatures gives N values' if is_arr else 'a single temperature gives a single number',
                     np.size(res) == len(Ts), sig, case, list(np.shape(res)), len(Ts)):
         return None
@@ -769,13 +788,31 @@ def _check_hist(case, ctx):
     ctx.tag('hist:make=' + make)
     ctx.tag('hist:dtype=' + dtype)
     sigT = 'ndarray' + (':int' if dtype == 'int' else '')
+    try:
+        _hist_steps(ctx, case, cfg, o, st, B, base, alt, others)
+    except _HistoryBroken:
+        return
+    obs, exp = _params_now(o, st)
+    ctx.true(CL_PARAMS, obs == exp,
+             {'cls': cls, 'T': sigT, 'after': seq[-2].split(':')[0], 'make': make, 'on': 'self'}, case, obs, exp)
+    for name, (o2, st2) in sorted(others.items()):
+        obs, exp = _params_now(o2, st2)
+        ctx.true(CL_PARAMS, obs == exp, {'cls': cls, 'T': sigT, 'after': seq[-2].split(':')[0], 'make': make, 'on': name},
+                 case, obs, exp)
+
+
+def _hist_steps(ctx, case, cfg, o, st, B, base, alt, others):
+    make, dtype, seq = case['make'], case['dtype'], case['seq']
+    cls = _clsname(cfg)
+    np_dtype = np.int64 if dtype == 'int' else np.float64
+    sigT = 'ndarray' + (':int' if dtype == 'int' else '')
     last, after = None, 'start'
     for step, item in enumerate(seq):
         if step % 2 == 0:
             sig = {'cls': cls, 'getter': item, 'T': sigT, 'after': after, 'make': make, 'on': 'self'}
             last = _hist_call(ctx, case, o, st, item, B, sig)
             continue
-        ev, after = item, item
+        ev, after = item, item.split(':')[0]        # the signature names the class of event, the case the event
         g = seq[step - 1]
         ctx.tag('hist:ev=' + ev)
         ctx.trans()
@@ -838,12 +875,6 @@ def _check_hist(case, ctx):
             _hist_call(ctx, case, o3, st3, g, B, dict(sig, on='clone'))
         else:
             raise core.HarnessError('unknown history event %r' % (ev,))
-    obs, exp = _params_now(o, st)
-    ctx.true(CL_PARAMS, obs == exp,
-             {'cls': cls, 'T': sigT, 'after': after, 'make': make, 'on': 'self'}, case, obs, exp)
-    for name, (o2, st2) in sorted(others.items()):
-        obs, exp = _params_now(o2, st2)
-        ctx.true(CL_PARAMS, obs == exp, {'cls': cls, 'T': sigT, 'after': after, 'make': make, 'on': name}, case, obs, exp)
 
 
 def _histories(cfg, tier):
@@ -856,7 +887,7 @@ def _histories(cfg, tier):
                 for ev in evs:
                     for g2 in (GETTERS if full else [g1]):
                         yield make, dtype, [g1, ev, g2]
-            if tier == 'thorough':                   # depth 3 on the diagonal
+            if tier == 'thorough' and make == 'ctor':   # depth 3 on the diagonal
                 for g in GETTERS:
                     for ev1 in evs:
                         for ev2 in evs:
@@ -868,7 +899,7 @@ def _run_hist(shard, ctx):
     for make, dtype, seq in _histories(cfg, shard.get('hist', 'quick')):
         ctx.state(('hist', _key(cfg), make, dtype))
         case = dict(kind='hist', obj=cfg, make=make, dtype=dtype, seq=seq)
-        ctx.run_case(check_case, case, {'cls': _clsname(cfg), 'getter': seq[0], 'after': seq[1], 'make': make,
+        ctx.run_case(check_case, case, {'cls': _clsname(cfg), 'getter': seq[0], 'after': seq[1].split(':')[0], 'make': make,
                                         'T': 'ndarray' + (':int' if dtype == 'int' else '')})
         ctx.trace()
         ctx.nontrivial(('hist', _key(cfg), make, dtype, '|'.join(seq)))
@@ -898,6 +929,11 @@ def _evaluators(fam, units):
 
 def _check_lin(case, ctx):
     fam, units, T = case['fam'], case['units'], case['T']
+    Tform = 'scalar'
+    if isinstance(T, int):                                  # integer-typed temperature (python int / numpy integer)
+        T = np.int64(T) if case.get('np') else T
+        Tform = 'np.int64' if case.get('np') else 'int'
+        ctx.tag('lin:T=' + Tform)
     n = NCOEF[fam]
     R = None
     if fam == 'shomate':
@@ -905,7 +941,7 @@ def _check_lin(case, ctx):
         R = c.R(units)
     ctx.tag('lin:' + fam)
     for q, (fname, f) in _evaluators(fam, units).items():
-        sig = {'cls': fname, 'getter': fname, 'T': 'scalar'}
+        sig = {'cls': fname, 'getter': fname, 'T': Tform}
         base = []
         for i in range(n):
             v = float(f(_unit(n, i), T))
@@ -1042,6 +1078,12 @@ def _run_lin_shard(shard, ctx):
             case = dict(kind='lin', fam=fam, units=u, T=T)
             ctx.run_case(check_case, case, {'cls': fam, 'T': 'scalar'})
         ctx.sample(dict(kind='lin', fam=fam, units=u, T=Ts[len(Ts) // 2]), limit=1)
+        for T in Ts:
+            if T == int(T):
+                for form in (False, True):
+                    case = dict(kind='lin', fam=fam, units=u, T=int(T), np=form)
+                    ctx.run_case(check_case, case, {'cls': fam, 'T': 'np.int64' if form else 'int'})
+                    ctx.nontrivial(('lin-int', fam, u, int(T), form))
         if fam == 'shomate':
             for name in COEF_NAMES:
                 for L in ARRAY_LENGTHS:
@@ -1064,7 +1106,16 @@ LEVEL_TEXT = ('Exhaustive lattice walk on real Nasa, Nasa9 and Shomate objects: 
               'and shuffled listing), evaluated on every lattice point, bound, break point and floating-point '
               'neighbour; textbook-form value of the containing segment, G = H - S, quadrature edge laws for dH/dT = Cp '
               'and dS/dT = Cp/T on every edge, refusal outside every NASA-9 segment, array = scalar-by-scalar for all '
-              'eight getters; linearity of the evaluators on all basis pairs extends the result to every coefficient vector.')
+              'eight getters; linearity of the evaluators on all basis pairs extends the result to every coefficient vector. '
+              'Call histories on freshly built, rebuilt (from_dict) and deep-copied objects: two getter calls on one temperature '
+              'buffer with one of 14 events in between (buffer edited in place, returned array overwritten, parameters '
+              're-assigned or edited in place, break point or fitting unit changed, another species / another array / a scalar / '
+              'an edited clone evaluated), each call compared with the textbook value for the content and parameters of that '
+              'moment; the caller\'s arrays and the species\' parameters must be left unchanged.')
 LEVEL_NOTE = ('Temperature lattice ratio 1.25 (quick) / 1.1 (thorough); Shomate in 4 (quick) / all 16 (thorough) fitting '
-              'units; array lengths 1,2,3,7,50 (thorough adds 4,13,25); extrapolation of NASA-7/Shomate outside the range is recorded, not judged.')
-TECHNIQUE = 'lattice walk with quadrature edge laws on the implementation, textbook reference model, linearity closure'
+              'units; array lengths 1,2,3,7,50 (thorough adds 4,13,25) in ascending, descending, repeated and shuffled order; '
+              'histories: one event between two calls (quick: all getter pairs only for constructor-made objects with float buffers; '
+              'thorough: all pairs everywhere plus two events between three calls); extrapolation of NASA-7/Shomate outside the '
+              'range is recorded, not judged.')
+TECHNIQUE = ('lattice walk with quadrature edge laws on the implementation, textbook reference model, linearity closure, '
+             'exhaustive depth-bounded call histories')
